@@ -337,6 +337,12 @@ def larger_designs_end_to_end(chunk, replay=None):
                 n = Netlist(write_yaml(doc))
                 d = Die(write_yaml(die_doc), n)
                 if refine_n:
+                    # composition on ONE die object: allocate, refine the die, allocate again (added after seed C03-6: a memo keyed by the
+                    # die's identity returned the allocation of the unrefined die)
+                    try:
+                        amod.create_initial_allocation(d, zero)
+                    except Exception:  # noqa: judged below, on the refined die
+                        pass
                     d.split_refinable_regions(2.0, refine_n)
             except AssertionError:
                 break           # the generator made an inconsistent design (e.g. module rectangles overlapping): not this property's business
@@ -397,6 +403,14 @@ def larger_designs_end_to_end(chunk, replay=None):
                     have = None if (zero or want > 0) else 0.0        # without zero entries a module that touches nothing is simply absent
                 if have is None or abs(have - want) > 1e-9 * max(1.0, want):
                     bad = bad or f"area allocated to {nm}: {have} instead of {want}"
+            if not bad:
+                # a second call gives an equal, independent allocation (the first result may be edited by its caller)
+                for x in al.allocations:
+                    x.alloc.clear()
+                al2 = amod.create_initial_allocation(d, zero)
+                got2 = {tuple(round(v, 9) for v in _bx(x.rect.center.x, x.rect.center.y, x.rect.shape.w, x.rect.shape.h)): dict(x.alloc) for x in al2.allocations}
+                if al2 is al or got2 != got:
+                    bad = "a second call on the same die does not return an equal, independent allocation"
             if bad:
                 failures.append(dict(clause="big.allocation_equals_the_geometric_overlap", observed=bad, **info))
             if not samples:
